@@ -1262,7 +1262,8 @@ def fam_tls(rng, n, dist):
         if b.connected:
             r = rng.random()
             if r < 0.3 and fault != "unclean-close":
-                b.logout(codes=rng.choice([(220,), (220,), (120, 220), (120, 230)]))
+                # (REIN refused: the session stays as it is - inside TLS)
+                b.logout(codes=rng.choice([(220,), (220,), (120, 220), (120, 230), (500,), (502,), (421,) if False else (530,)]))
                 if rng.random() < 0.5:
                     b.login(b"again", b"pw")
                 b.disconnect(True)
